@@ -96,7 +96,7 @@ def sign(x):
 
 
 BENIGN = re.compile(
-    r"^(core::fmt::|core::panicking::|tracing|tracing_core|ark_std::io::stdio|core::mem::forget|hex::|core::str::|zeroize::|core::char::methods|<T as ark_std::string::ToString>|"
+    r"^(core::fmt::|core::panicking::|tracing|tracing_core|ark_std::io::stdio|core::mem::forget|hex::|core::str::|zeroize::|core::char::methods|<T as ark_std::string::ToString>|ark_serialize::Flags::|"
     r"<.* as zeroize::Zeroize>|core::hash::Hasher|core::intrinsics::discriminant_value|ark_std::string::)")
 
 
